@@ -6,14 +6,14 @@ COMMON_ASSUMPTIONS = [
     "8 Elligator vectors), r*G = identity and Miller-Rabin primality of p, q, r",
     "verdicts concern the executions listed under coverage only (sampled universal quantifier)",
     "harness builds decaf377 from /repo's working tree with --cfg decaf377_verif (hooks only add accessors / a hint override)",
-    "feature configurations exercised: arkworks+r1cs, minimal; plus (thorough tier, and the quick tier of C09/C12/C13/C15/C17) "
+    "feature configurations exercised: arkworks+r1cs, minimal; plus (thorough tier, and the quick tier of C01/C03/C08/C09/C10/C11/C12/C13/C15/C17) "
     "arkworks+r1cs+parallel+u32_backend with a 3-thread rayon pool and minimal+std+u32_backend",
 ]
 DISTINCT = " distinct_nontrivial counts distinct hashed case tuples per build run (summed over runs)."
 
 PROPS = {
     "C01": {
-        "config_runs_quick": [], "config_runs": [('arkx', 'C01'), ('minx', 'C01')],
+        "config_runs_quick": [("arkx", "C01"), ("minx", "C01")], "config_runs": [('arkx', 'C01'), ('minx', 'C01')],
         "builds": ["ark", "min"], "level": "exploration", "design_ref": "DESIGN.md §3 C01",
         "monitor_profile": [("ark", "C01"), ("min", "C01")],
         "monitor_profile_quick": [("ark", "C01"), ("min", "C01")],
@@ -52,7 +52,7 @@ PROPS = {
                 "judged on its first 32 bytes and must consume exactly 32.",
     },
     "C03": {
-        "config_runs_quick": [], "config_runs": [('arkx', 'C03'), ('minx', 'C03')],
+        "config_runs_quick": [("arkx", "C03"), ("minx", "C03")], "config_runs": [('arkx', 'C03'), ('minx', 'C03')],
         "builds": ["ark", "min"], "level": "exploration", "design_ref": "DESIGN.md §3 C03",
         "technique": "runtime monitor comparing every encoder (16 in the arkworks build, 6 in the minimal one) with BigUint encodeSpec "
                      "on all representations of an element, plus all-pairs injectivity checks",
@@ -141,7 +141,7 @@ PROPS = {
                 "spec-undefined, never judged (it is unreachable).",
     },
     "C08": {
-        "config_runs_quick": [], "config_runs": [('arkx', 'C08'), ('minx', 'C08')],
+        "config_runs_quick": [("arkx", "C08"), ("minx", "C08")], "config_runs": [('arkx', 'C08'), ('minx', 'C08')],
         "builds": ["ark", "min"], "level": "exploration", "design_ref": "DESIGN.md §3 C08",
         "technique": "runtime coherence monitor: all pairs inside families of equal-but-differently-represented elements "
                      "(== vs encoding vs model vs Hash with DefaultHasher and a byte-recording hasher) and all identity predicates on "
@@ -181,7 +181,7 @@ PROPS = {
         "fresh_process_repeats": [("ark", "lazyinit", 12, 300)],
     },
     "C10": {
-        "config_runs_quick": [], "config_runs": [('arkx', 'C10'), ('minx', 'C10')],
+        "config_runs_quick": [("arkx", "C10"), ("minx", "C10")], "config_runs": [('arkx', 'C10'), ('minx', 'C10')],
         "builds": ["ark", "min"], "level": "exploration", "design_ref": "DESIGN.md §3 C10",
         "monitor_profile": [("ark", "C10"), ("min", "C10")],
         "monitor_profile_quick": [("ark", "C10"), ("min", "C10")],
@@ -200,7 +200,7 @@ PROPS = {
         "note": "trusted: num-bigint. Fq::SENTINEL and non-canonical from_montgomery_limbs inputs are outside the quantifier.",
     },
     "C11": {
-        "config_runs_quick": [], "config_runs": [('arkx', 'C11'), ('minx', 'C11')],
+        "config_runs_quick": [("arkx", "C11"), ("minx", "C11")], "config_runs": [('arkx', 'C11'), ('minx', 'C11')],
         "builds": ["ark", "min"], "level": "exploration", "design_ref": "DESIGN.md §3 C11",
         "technique": "runtime monitor comparing every serialiser / checked parser / reducer / conversion of the three fields with the "
                      "integer model on hostile byte strings (lengths 0..=200, p-1, p, p+1, aliases v+kp, high bits) and flag types",
